@@ -244,6 +244,7 @@ func runChain(c Case, digestOnly bool) (kit.Result, string) {
 		// successful self-withdrawals / delegation unbinds of the current period, by validator
 		selfWd, unbound = map[common.Address]bool{}, map[common.Address]bool{}
 		resetPeriod     bool
+		probeCalls, factoryCalls int
 	)
 	// negative-pending-record: some validator has both in this period (incl. the current block)
 	negRec := func() bool {
@@ -291,6 +292,14 @@ func runChain(c Case, digestOnly bool) (kit.Result, string) {
 		}
 		hasStaking := false
 		for i, tx := range step.Built.Included {
+			if m := step.Metas[tx.Hash()]; m != nil && m.Kind == "call" && i < len(step.Built.Receipts) && step.Built.Receipts[i].Status == types.ReceiptStatusSuccessful {
+				switch m.CKind {
+				case sc.KindProbe, sc.KindProbeNoStore:
+					probeCalls++
+				case sc.KindFactory:
+					factoryCalls++
+				}
+			}
 			if m := step.Metas[tx.Hash()]; m != nil && m.Staking {
 				hasStaking = true
 				if i < len(step.Built.Receipts) && step.Built.Receipts[i].Status == types.ReceiptStatusSuccessful {
@@ -395,6 +404,8 @@ func runChain(c Case, digestOnly bool) (kit.Result, string) {
 	flag(stakingB >= 5, "staking-blocks>=5")
 	flag(periodEnds >= 3, "periods>=3")
 	flag(c.Batch > 0, "batch-import")
+	flag(probeCalls > 0, "evm:address-probe-call")
+	flag(factoryCalls > 0, "evm:create-by-contract")
 	flag(workerBlocks > 0, "built-by-real-worker")
 	flag(crossSame > 0, "worker==mirror")
 	// not a violation of the statement (it may be builder-side nondeterminism or a changed
